@@ -205,8 +205,8 @@ func (c *Ctx) musxRun() map[string]*simpleVerdict {
 				vr.undec = "NewMustacheTemplate: " + out.why
 				return
 			}
-			set := c.Prog.LookupMethod(tt, nil, "SetTemplate")
-			eval := c.Prog.LookupMethod(tt, nil, "EvaluateWithVariables")
+			set := c.lookupMethod(tt, "SetTemplate")
+			eval := c.lookupMethod(tt, "EvaluateWithVariables")
 			mkMap := func(vars map[string]string) *mMap {
 				mm := &mMap{k: map[string]mv{}, v: map[string]mv{}}
 				var keys []string
